@@ -8,6 +8,7 @@ import (
 	"errors"
 	"fmt"
 	"os"
+	"path"
 	"strings"
 
 	"lcverif/c12"
@@ -117,6 +118,9 @@ func parseData(data string) map[string]string {
 }
 
 func (k *Kernel) Mount(src, tgt, fstype string, flags uintptr, data string) error {
+	// path resolution: the kernel records the resolved mountpoint, never the string it was given
+	// (Kernel.v is only ever handed cleaned paths by the model)
+	tgt = path.Clean(tgt)
 	fl := uint64(flags)
 	if fl&MS_REMOUNT != 0 || fl&MS_SLAVE != 0 {
 		if k.topAt(tgt) == nil {
@@ -184,6 +188,7 @@ func (k *Kernel) Mount(src, tgt, fstype string, flags uintptr, data string) erro
 }
 
 func (k *Kernel) Unmount(tgt string, flags int) error {
+	tgt = path.Clean(tgt)
 	top := k.topAt(tgt)
 	if top == nil {
 		return ErrInval
